@@ -76,7 +76,7 @@ def build(name, active=None):
     # ---------------- plain types ----------------
     u.add(u.item(K + 'mode.rs', 'enum', 'SchedulingMode'))
     u.add(impl_block('SchedulingMode', [
-        u.fn(K + 'mode.rs', 'is_classic', impl='SchedulingMode', sub='select', ret='r', ensures=['r == (self is Classic)']),
+        u.fn(K + 'mode.rs', 'is_classic', impl='SchedulingMode', sub='select', ret='r', ensures=[C('C10.select.mode.is_classic_reads_the_mode', 'r == (self is Classic)')]),
         u.fn(K + 'mode.rs', 'as_u8', impl='SchedulingMode', sub='select', ret='r', ensures=[
             C('C18.core.mode.as_u8', 'r == (if self is Classic { 0u8 } else { 1u8 })')]),
         u.fn(K + 'mode.rs', 'from_u8', impl='SchedulingMode', sub='select', ret='r', ensures=[
@@ -85,11 +85,11 @@ def build(name, active=None):
     u.add(u.item(K + 'config_snapshot.rs', 'struct', 'ConfigSnapshot'))
     u.add(impl_block('ConfigSnapshot', [
         u.fn(K + 'config_snapshot.rs', 'effective_quality_enabled', impl='ConfigSnapshot', sub='select', ret='r',
-             ensures=['r == (self.quality_enabled && !(self.mode is Classic))']),
+             ensures=[C('C10+C11.select.config.quality_scoring_is_off_in_classic_mode', 'r == (self.quality_enabled && !(self.mode is Classic))')]),
     ]))
     u.add(u.item(CONN, 'enum', 'LinkPhase'))
     u.add(impl_block('LinkPhase', [
-        u.fn(CONN, 'is_schedulable', impl='LinkPhase', sub='select', ret='r', ensures=['r == !(self is Registering)']),
+        u.fn(CONN, 'is_schedulable', impl='LinkPhase', sub='select', ret='r', ensures=[C('C03+C04.select.phase.schedulable_iff_registered', 'r == !(self is Registering)')]),
         u.fn(CONN, 'weight', impl='LinkPhase', sub='select', ret='r', ensures=[
             C('C11.select.phase_weight.values', 'r == spec_phase_weight(*self)')]),
     ]))
@@ -158,7 +158,7 @@ def add_batch(u):
             C('C01.batch.set_regime.keeps_queue', 'final(self).queue == old(self).queue && final(self).sequences == old(self).sequences && final(self).queue_times == old(self).queue_times && final(self).last_flush_ms == old(self).last_flush_ms')]),
         u.fn(B, 'needs_time_flush', impl='BatchSender', sub='batch', ret='r', ensures=[
             C('C01.batch.needs_time_flush.due_after_15ms', 'r == (self.queue.len() > 0 && sub_sat(now_ms, self.last_flush_ms) >= 15)')]),
-        u.fn(B, 'has_queued_packets', impl='BatchSender', sub='batch', ret='r', ensures=['r == (self.queue.len() > 0)']),
+        u.fn(B, 'has_queued_packets', impl='BatchSender', sub='batch', ret='r', ensures=[C('C01.batch.sender.has_queued_packets_iff_queue_nonempty', 'r == (self.queue.len() > 0)')]),
         u.fn(B, 'queued_count', impl='BatchSender', sub='batch', ret='r', requires=['self.wf()'],
              ensures=['r == self.queue.len()', '0 <= r']),
         u.fn(B, 'drain', impl='BatchSender', sub='batch', ret='r', pre_rewrite=[zip3], requires=['old(self).wf()'], ensures=[
@@ -206,7 +206,8 @@ def add_congestion(u):
                  C('C05.acct.cc_handle_nak.one_loss_count', 'final(self).nak_count == sat_i32(old(self).nak_count + 1)'),
                  C('C06.acct.cc_handle_nak.fast_recovery_entered_only_at_2000', '!old(self).fast_recovery_mode && final(self).fast_recovery_mode ==> *final(window) <= 2000'),
                  C('C06.acct.cc_handle_nak.fast_recovery_not_left', 'old(self).fast_recovery_mode ==> final(self).fast_recovery_mode'),
-                 'r']),
+                 # nothing is promised about the returned bool: the only caller (SrtlaConnection::handle_nak) discards it, and must not start relying on it
+                 ]),
         u.fn(G, 'handle_srtla_ack_specific_classic', impl='CongestionControl', sub='acct', post_rewrite=rep,
              requires=['win_ok(*old(window))'],
              ensures=[C('C06+C10.acct.classic_ack.exact_delta', '*final(window) == spec_ack_window(*old(window), in_flight_packets)'),
@@ -220,7 +221,7 @@ def add_congestion(u):
                       C('C06.acct.enhanced_ack.frame', '*final(self) == (CongestionControl { fast_recovery_mode: final(self).fast_recovery_mode, ..*old(self) })')]),
         u.fn(G, 'perform_window_recovery', impl='CongestionControl', sub='acct', post_rewrite=rep,
              requires=['win_ok(*old(window))'],
-             ensures=['win_ok(*final(window))', '*old(window) <= *final(window)', '!connected ==> *final(window) == *old(window)',
+             ensures=[C('C06.acct.cc.window_recovery_keeps_1000_60000', 'win_ok(*final(window))'), C('C06.acct.cc.window_recovery_never_decreases', '*old(window) <= *final(window)'), '!connected ==> *final(window) == *old(window)',
                       'old(self).fast_recovery_mode && !final(self).fast_recovery_mode ==> *final(window) >= 12000',
                       '!old(self).fast_recovery_mode ==> !final(self).fast_recovery_mode',
                       'final(self).nak_count == old(self).nak_count']),
@@ -276,7 +277,7 @@ def add_rtt(u):
     u.add(S.RTT_STUBS)
     u.add(impl_block('RttTracker', [
         u.fn(T, 'record_keepalive_sent', impl='RttTracker', sub='reconn', ensures=[
-            'final(self).last_keepalive_sent_ms == now_ms', 'final(self).waiting_for_keepalive_response',
+            C('C14.reconn.rtt.record_keepalive_sent_arms_the_probe', 'final(self).last_keepalive_sent_ms == now_ms && final(self).waiting_for_keepalive_response'),
             'final(self).last_rtt_measurement_ms == old(self).last_rtt_measurement_ms', 'final(self).kalman_rtt == old(self).kalman_rtt']),
         u.fn(T, 'handle_keepalive_response', impl='RttTracker', sub='reconn', ret='r',
              ensures=[
@@ -288,7 +289,7 @@ def add_rtt(u):
                  C('C14.reconn.keepalive_response.probe_consumed', '!final(self).waiting_for_keepalive_response'),
              ]),
         u.fn(T, 'needs_measurement', impl='RttTracker', sub='reconn', ret='r', ensures=[
-            'r == (connection_established_ms != 0 && connected && !self.waiting_for_keepalive_response && (self.last_rtt_measurement_ms == 0 || sub_sat(now_ms, self.last_rtt_measurement_ms) > 3000))']),
+            C('C14.reconn.rtt.probe_due_only_when_none_outstanding_and_3s_old', 'r == (connection_established_ms != 0 && connected && !self.waiting_for_keepalive_response && (self.last_rtt_measurement_ms == 0 || sub_sat(now_ms, self.last_rtt_measurement_ms) > 3000))')]),
     ]))
 
 
@@ -298,7 +299,7 @@ def add_connection(u):
     fns = []
     F = fns.append
     F(u.fn(CONN, 'new_registering', impl='SrtlaConnection', sub='acct', ret='r',
-           post_rewrite=[('crate::config_snapshot::CONN_TIMEOUT_MS', 'CONN_TIMEOUT_MS', 1),
+           post_rewrite=[
                          ('RttTracker::default()', 'rtt_tracker_default()', 1),
                          ('CongestionControl::default()', 'congestion_default()', 1),
                          ('CachedQuality::default()', 'cached_quality_default()', 1),
@@ -326,8 +327,8 @@ def add_connection(u):
                'final(self).batch_sender.regime == old(self).batch_sender.regime',
            ]))
     F(u.fn(CONN, 'needs_batch_flush', impl='SrtlaConnection', sub='batch', ret='r', ensures=[
-        'r == (self.batch_sender.queue.len() > 0 && sub_sat(now_ms, self.batch_sender.last_flush_ms) >= 15)']))
-    F(u.fn(CONN, 'has_queued_packets', impl='SrtlaConnection', sub='batch', ret='r', ensures=['r == (self.batch_sender.queue.len() > 0)']))
+        C('C01.batch.conn.flush_due_after_15ms', 'r == (self.batch_sender.queue.len() > 0 && sub_sat(now_ms, self.batch_sender.last_flush_ms) >= 15)')]))
+    F(u.fn(CONN, 'has_queued_packets', impl='SrtlaConnection', sub='batch', ret='r', ensures=[C('C01.batch.conn.has_queued_packets_iff_queue_nonempty', 'r == (self.batch_sender.queue.len() > 0)')]))
     F(u.fn(CONN, 'take_batch', impl='SrtlaConnection', sub='batch', ret='r',
            requires=['old(self).wf_count()', 'old(self).batch_sender.wf()', 'old(self).packet_log@.len() + old(self).batch_sender.queue.len() < 0x7fff_0000'],
            ensures=[
@@ -349,7 +350,7 @@ def add_connection(u):
                'self.same_except_log_hw(&mid)',
                'self.packet_log@.len() <= mid.packet_log@.len() + batch_nx',
                'mid.packet_log@.len() + batch@.len() < 0x7fff_0000',
-               'old(self).above_hw() ==> self.above_hw()',
+               C('C02.batch.take_batch.keeps_log_above_high_water', 'old(self).above_hw() ==> self.above_hw()'),
                C('C02.batch.take_batch.registers_exactly_the_tracked_seqs', '''forall|k: i32| #[trigger] self.packet_log@.contains_key(k) <==>
                     (mid.packet_log@.contains_key(k) || exists|i: int| 0 <= i < batch_nx && (#[trigger] batch@[i]).1 is Some && batch@[i].1.unwrap() as i32 == k)'''),
            ], dec='batch.len() - batch_nx')},
@@ -388,37 +389,37 @@ def add_connection(u):
     F(u.fn(CONN, 'get_smooth_rtt_ms', impl='SrtlaConnection', sub='select', ret='r', ensures=['r == spec_srtt(self.rtt.kalman_rtt.x)']))
     F(u.fn(CONN, 'get_rtt_min_ms', impl='SrtlaConnection', sub='select', ret='r', ensures=['r == self.rtt.rtt_min_ms']))
     F(u.fn(CONN, 'needs_rtt_measurement', impl='SrtlaConnection', sub='reconn', ret='r', ensures=[
-        'r == (self.reconnection.connection_established_ms != 0 && self.connected && !self.rtt.waiting_for_keepalive_response && (self.rtt.last_rtt_measurement_ms == 0 || sub_sat(now_ms, self.rtt.last_rtt_measurement_ms) > 3000))']))
+        C('C14.reconn.conn.rtt_probe_due_only_when_none_outstanding_and_3s_old', 'r == (self.reconnection.connection_established_ms != 0 && self.connected && !self.rtt.waiting_for_keepalive_response && (self.rtt.last_rtt_measurement_ms == 0 || sub_sat(now_ms, self.rtt.last_rtt_measurement_ms) > 3000))')]))
     F(u.fn(CONN, 'needs_keepalive', impl='SrtlaConnection', sub='reconn', ret='r', ensures=[
         C('C14.reconn.needs_keepalive.due_after_1s', 'r == (self.connected && (self.last_keepalive_sent is None || sub_sat(now_ms, self.last_keepalive_sent.unwrap()) >= 1000))')]))
     F(u.fn(CONN, 'perform_window_recovery', impl='SrtlaConnection', sub='acct',
            requires=['win_ok(old(self).window)'],
-           ensures=['win_ok(final(self).window)', 'old(self).window <= final(self).window', '!old(self).connected ==> final(self).window == old(self).window',
+           ensures=[C('C06.acct.conn.window_recovery_keeps_1000_60000', 'win_ok(final(self).window)'), C('C06.acct.conn.window_recovery_never_decreases', 'old(self).window <= final(self).window'), '!old(self).connected ==> final(self).window == old(self).window',
                     'old(self).congestion.fast_recovery_mode && !final(self).congestion.fast_recovery_mode ==> final(self).window >= 12000',
                     '!old(self).congestion.fast_recovery_mode ==> !final(self).congestion.fast_recovery_mode',
                     'final(self).same_except_window_cc(old(self))']))
     F(u.fn(CONN, 'record_rtt_probe', impl='SrtlaConnection', sub='reconn',
            requires=['old(self).phase is Warming ==> old(self).phase->rtt_probes < 0xffff_ffff'],
            ensures=['final(self).same_except_phase(old(self))', 'old(self).phase is Registering ==> final(self).phase is Registering']))
-    F(u.fn(CONN, 'is_schedulable', impl='SrtlaConnection', sub='select', ret='r', ensures=['r == self.spec_sched()']))
-    F(u.fn(CONN, 'phase_weight', impl='SrtlaConnection', sub='select', ret='r', ensures=['r == spec_phase_weight(self.phase)']))
+    F(u.fn(CONN, 'is_schedulable', impl='SrtlaConnection', sub='select', ret='r', ensures=[C('C03+C04.select.conn.schedulable_iff_registered', 'r == self.spec_sched()')]))
+    F(u.fn(CONN, 'phase_weight', impl='SrtlaConnection', sub='select', ret='r', ensures=[C('C11.select.conn.phase_weight_delegates', 'r == spec_phase_weight(self.phase)')]))
     for nm in ('effective_stall_stale_ms', 'silence_pull_window_ms'):
         pass
     F(u.fn(CONN, 'effective_stall_stale_ms', impl='SrtlaConnection', sub='select', ret='r',
-           post_rewrite=[(re.compile(r'use crate::config_snapshot::\{[^}]*\};\s*'), '', 1), ('(srtt as u64)', 'f64_to_u64(srtt)', 1)],
+           post_rewrite=[('(srtt as u64)', 'f64_to_u64(srtt)', 1)],
            ensures=[C('C13.select.effective_stall_stale_ms.formula', 'r == self.spec_eff_stale(ceiling_ms)')]))
     F(u.fn(CONN, 'is_stalled', impl='SrtlaConnection', sub='select', ret='r', ensures=[
         C('C13.select.is_stalled.needs_backlog_and_stale_proof', 'r == self.spec_stalled(now_ms, min_in_flight, stale_ceiling_ms)')]))
     F(u.fn(CONN, 'update_stall_latch', impl='SrtlaConnection', sub='select',
-           post_rewrite=[('crate::config_snapshot::STALL_REJOIN_DWELL_MULT', 'STALL_REJOIN_DWELL_MULT', 1)],
+           post_rewrite=[],
            requires=['old(self).stall_gate_events < 0x7fff_ffff_ffff_ffff', 'now_ms > 0', 'old(self).latch_wf()'],
            ensures=S.LATCH_ENSURES))
-    F(u.fn(CONN, 'stall_latched', impl='SrtlaConnection', sub='select', ret='r', ensures=['r == self.spec_latched()']))
+    F(u.fn(CONN, 'stall_latched', impl='SrtlaConnection', sub='select', ret='r', ensures=[C('C04+C12.select.conn.stall_latched_reads_the_latch', 'r == self.spec_latched()')]))
     F(u.fn(CONN, 'clear_stall_latch', impl='SrtlaConnection', sub='select', ensures=[
         C('C12.select.clear_stall_latch.clears_only_the_latch', '*final(self) == (SrtlaConnection { stall_latched_since_ms: 0, stall_recovery_since_ms: 0, ..*old(self) })')]))
-    F(u.fn(CONN, 'is_stall_gated', impl='SrtlaConnection', sub='select', ret='r', ensures=['r == self.stall_gated']))
+    F(u.fn(CONN, 'is_stall_gated', impl='SrtlaConnection', sub='select', ret='r', ensures=[C('C01+C04.select.conn.is_stall_gated_reads_the_gate_flag', 'r == self.stall_gated')]))
     F(u.fn(CONN, 'stall_probe_due', impl='SrtlaConnection', sub='batch', ret='r',
-           post_rewrite=[('crate::config_snapshot::STALL_PROBE_ONE_IN_N', 'STALL_PROBE_ONE_IN_N', 1)],
+           post_rewrite=[],
            requires=['old(self).stall_probe_counter < 100'],
            ensures=[
                C('C01.batch.stall_probe_due.one_in_100', 'r == (old(self).stall_probe_counter + 1 >= 100)'),
@@ -427,7 +428,7 @@ def add_connection(u):
                C('C01+C12.batch.stall_probe_due.frame', '*final(self) == (SrtlaConnection { stall_probe_counter: final(self).stall_probe_counter, ..*old(self) })'),
            ]))
     F(u.fn(CONN, 'silence_pull_window_ms', impl='SrtlaConnection', sub='select', ret='r',
-           post_rewrite=[(re.compile(r'use crate::config_snapshot::\{[^}]*\};\s*'), '', 1), ('(srtt as u64)', 'f64_to_u64(srtt)', 1)],
+           post_rewrite=[('(srtt as u64)', 'f64_to_u64(srtt)', 1)],
            ensures=[C('C13.select.silence_pull_window_ms.formula', 'r == self.spec_pull_window(stale_ceiling_ms)'),
                     C('C13.select.silence_pull_window_ms.capped_by_stale_window', 'r <= self.spec_eff_stale(stale_ceiling_ms)')]))
     F(u.fn(CONN, 'is_briefly_silent', impl='SrtlaConnection', sub='select', ret='r', ensures=[
@@ -461,15 +462,15 @@ def add_connection(u):
     F(u.fn(CONN, 'nak_burst_count', impl='SrtlaConnection', sub='select', ret='r', ensures=['r == self.congestion.nak_burst_count']))
     F(u.fn(CONN, 'connection_established_ms', impl='SrtlaConnection', sub='select', ret='r', ensures=['r == self.reconnection.connection_established_ms']))
     F(u.fn(CONN, 'get_cached_quality_multiplier', impl='SrtlaConnection', sub='select', ret='r',
-           post_rewrite=[('use crate::selection::calculate_quality_multiplier;', '', 1)],
+           post_rewrite=[],
            ensures=[C('C12.select.get_cached_quality_multiplier.writes_only_the_cache', 'final(self).same_except_qc(old(self))'),
                     'r == final(self).quality_cache.multiplier',
                     'q_ok(old(self).quality_cache.multiplier) ==> q_ok(final(self).quality_cache.multiplier)',
                     C('C11.select.get_cached_quality_multiplier.idempotent_at_same_time', 'sub_sat(current_time_ms, old(self).quality_cache.last_calculated_ms) < 50 ==> final(self).quality_cache == old(self).quality_cache'),
                     'sub_sat(current_time_ms, old(self).quality_cache.last_calculated_ms) >= 50 ==> final(self).quality_cache.last_calculated_ms == current_time_ms && final(self).quality_cache.multiplier == spec_quality(old(self), current_time_ms)']))
-    F(u.fn(CONN, 'should_attempt_reconnect', impl='SrtlaConnection', sub='reconn', ret='r', ensures=['r == spec_should_reconnect(&self.reconnection, now_ms)']))
+    F(u.fn(CONN, 'should_attempt_reconnect', impl='SrtlaConnection', sub='reconn', ret='r', ensures=[C('C08.reconn.conn.should_attempt_reconnect_delegates', 'r == spec_should_reconnect(&self.reconnection, now_ms)')]))
     F(u.fn(CONN, 'record_reconnect_attempt', impl='SrtlaConnection', sub='reconn', ensures=[
-        'final(self).reconnection.last_reconnect_attempt_ms == now_ms', 'final(self).same_except_reconnection(old(self))']))
+        C('C08.reconn.conn.record_reconnect_attempt_stamps_now', 'final(self).reconnection.last_reconnect_attempt_ms == now_ms'), 'final(self).same_except_reconnection(old(self))']))
     F(u.fn(CONN, 'mark_reconnect_success', impl='SrtlaConnection', sub='reconn', ensures=[
         C('C08.reconn.mark_reconnect_success.backoff_restarts', 'final(self).reconnection.reconnect_failure_count == 0'), 'final(self).same_except_reconnection(old(self))',
         'final(self).reconnection.connection_established_ms == old(self).reconnection.connection_established_ms',
@@ -481,7 +482,7 @@ def add_connection(u):
         C('C12.reconn.update_phase.frame', 'final(self).same_except_phase(old(self))'),
         'final(self).phase is Warming ==> final(self).phase == old(self).phase']))
     F(u.fn(CONN, 'recompute_batch_regime', impl='SrtlaConnection', sub='batch',
-           post_rewrite=[('crate::connection::batch_send::BatchRegime::from_bps(', 'BatchRegime::from_bps(', 1)],
+           post_rewrite=[],
            requires=['old(self).batch_sender.wf()'],
            ensures=[C('C01.batch.recompute_batch_regime.keeps_the_queue', '''final(self).batch_sender.wf() && final(self).batch_sender.queue == old(self).batch_sender.queue && final(self).batch_sender.sequences == old(self).batch_sender.sequences
             && final(self).batch_sender.queue_times == old(self).batch_sender.queue_times && final(self).batch_sender.last_flush_ms == old(self).batch_sender.last_flush_ms'''),
@@ -540,7 +541,7 @@ def add_selection(u):
              u.fn(E, 'in_flight_cap_exceeded', sub='select', ret='r', qual='enhanced::in_flight_cap_exceeded',
                   pre_rewrite=[(re.compile(r'in_flight_cap_packets\(c\.cc_target_bps, c\.get_rtt_min_ms\(\)\)\s*\.map\(\|cap\| c\.in_flight_packets > cap\)\s*\.unwrap_or\(false\)'),
                                 '(match in_flight_cap_packets(c.cc_target_bps, c.get_rtt_min_ms()) { Some(cap) => c.in_flight_packets > cap, None => false })', 1)],
-                  ensures=['r == spec_cap_exceeded(c)']),
+                  ensures=[C('C03+C11.select.enhanced.in_flight_cap_exceeded_matches_spec', 'r == spec_cap_exceeded(c)')]),
              S.ANY_UNCONSTRAINED_HELPER(u),
              u.fn(E, 'select_connection', sub='select', ret='r', qual='enhanced::select_connection',
                   pre_rewrite=[(re.compile(r'let any_unconstrained = conns\.iter\(\)\.any\(\|c\| \{.*?\}\);', re.S),
@@ -561,5 +562,5 @@ def add_selection(u):
     u.add(u.fn(K + 'selection/mod.rs', 'select_connection_idx', sub='select', ret='r',
                requires=S.IDX_REQUIRES, ensures=S.IDX_ENSURES, splices=S.IDX_SPLICES))
     u.add(u.fn(K + 'priority.rs', 'select_best_quality_idx', sub='select', ret='r',
-               post_rewrite=[('&[crate::connection::SrtlaConnection]', '&[SrtlaConnection]', 1), ('let mut best_idx = None;', 'let mut best_idx: Option<usize> = None;', 1)],
+               post_rewrite=[('let mut best_idx = None;', 'let mut best_idx: Option<usize> = None;', 1)],
                ensures=S.BESTQ_ENSURES, loops={0: dict(inv=S.BESTQ_INV, dec='conns.len() - i_nx')}))
